@@ -88,6 +88,12 @@ static void vec_make_room(Ctx &c) {
 static const char *const CHARSETS[] = {" \t\r\n", "x", "ab ", "0123456789", "\n", " .,;", "ABCDEFGHIJKLMNOPQRSTUVWXYZ"};
 static const char *const FORMATS[] = {"{}", "{}{}", "[{}] and [{}]", "{>24}", "{<24}|{}", "{&2}{&1}", "{_*>20}", "{{{}}}", "{&1}{&1}{&2}", "{.3}", "{.40}x{<3}"};
 
+typedef decltype(ST::literals::operator"" _stfmt("", 0)) StoredFmt;
+static const char *const SLOT_FORMATS[4] = {"{}-{}", "[{>12}] [{}]", "{&2}/{&1}/{}", "{.6}|{<4}"};
+void destroy_fmt_slots(Ctx &c) {
+    for (void *&p : c.fmt_slots) if (p) { { simrt::SutScope s; static_cast<StoredFmt *>(p)->~StoredFmt(); } obj_free(p); p = nullptr; }
+}
+
 bool exec_str_b(Ctx &c, const Op &op) {
     Family fam = META[op.kind].fam;
     if (fam != SS && fam != SD && fam != VV) return false;
@@ -95,7 +101,7 @@ bool exec_str_b(Ctx &c, const Op &op) {
     typedef ST::string S;
     switch (op.kind) {     // room for the result is made before any operand is selected
     case S_SUBSTR: case S_TRIM: case S_BEFORE_AFTER: case S_CASE: case S_REPLACE: case S_PLUS: case S_PLUS_CH: case S_FORMAT:
-    case S_CODEC: case V_ELEM_COPY: case V_ELEM_MOVE: str_make_room(c); break;
+    case S_CODEC: case V_ELEM_COPY: case V_ELEM_MOVE: case S_STFMT: str_make_room(c); break;
     default: break;
     }
     switch (op.kind) {
@@ -107,7 +113,7 @@ bool exec_str_b(Ctx &c, const Op &op) {
         Needle n; make_needle(c, h, op.b, ov == 0 ? 2 : form, false, ov == 1, n);
         size_t start = resolve_code(op.c, h->model.size());
         note_sig(c, op, std::string("hay=") + cl(h) + ",which=" + std::to_string(which) + ",ov=" + std::to_string(ov) + (n.pool == h ? ",self" : ""));
-        c.budget_bytes = h->model.size() * (1 + std::min<size_t>(n.bytes.size(), 16)) + n.bytes.size();
+        c.budget_bytes = h->model.size() * (1 + std::min<size_t>(n.bytes.size(), 16)) + 4 * n.bytes.size();
         as_const(h); if (n.pool) as_const(n.pool);
         if (n.pool == h) probe(c, PR_SELF_REFERENTIAL);
         ST::case_sensitivity_t cs = ci ? ST::case_insensitive : ST::case_sensitive;
@@ -361,7 +367,7 @@ bool exec_str_b(Ctx &c, const Op &op) {
         unsigned which = op.c % 4, ov = op.d % 3, ci = (op.d >> 2) & 1, form = (op.d >> 3) & 3;
         Needle n; make_needle(c, x, op.b, ov == 0 ? 2 : form, true, ov == 1, n);
         note_sig(c, op, std::string("obj=") + cl(x) + ",which=" + std::to_string(which) + ",ov=" + std::to_string(ov) + (n.pool == x ? ",self" : ""));
-        c.budget_bytes = x->model.size() * (1 + std::min<size_t>(n.bytes.size(), 16)) * 2;
+        c.budget_bytes = x->model.size() * (1 + std::min<size_t>(n.bytes.size(), 16)) * 2 + 4 * n.bytes.size();
         as_const(x); if (n.pool) as_const(n.pool);
         if (n.pool == x) probe(c, PR_SELF_REFERENTIAL);
         if (x->model.find(n.bytes) == std::string::npos && !ci && (which == 0 || which == 3)) probe(c, PR_RESULT_EQUALS_SOURCE);
@@ -407,8 +413,17 @@ bool exec_str_b(Ctx &c, const Op &op) {
                                              else { corrupt_units<char>(from.bytes, op.fc); from.bytes = from.bytes.substr(0, from.bytes.find('\0')); from.pool = nullptr; } }
         bool args_wf = (!from_c || strict_utf8(from.bytes.data(), from.bytes.size())) && (!to_c || strict_utf8(to.bytes.data(), to.bytes.size()));
         bool self = from.pool == x || to.pool == x;
+        {   // predicted result size (replace is the one operation whose result can be quadratic in its operands)
+            size_t k = 0;
+            if (!from.bytes.empty()) {
+                auto lower = [](std::string s) { for (auto &ch : s) if (ch >= 'A' && ch <= 'Z') ch += 32; return s; };
+                std::string hay = ci ? lower(x->model) : x->model, nee = ci ? lower(from.bytes) : from.bytes;
+                for (size_t p = hay.find(nee); p != std::string::npos; p = hay.find(nee, p + nee.size())) ++k;
+            }
+            if (x->model.size() + k * to.bytes.size() > MAX_OPERAND_BYTES) { c.skipped = true; return true; }
+        }
         note_sig(c, op, std::string("obj=") + cl(x) + ",ov=" + std::to_string(ov) + (self ? ",self" : "") + (args_wf ? "" : ",invalid"));
-        c.budget_bytes = (x->model.size() + 1) * (2 + std::min<size_t>(from.bytes.size(), 16)) + (x->model.size() + 1) * to.bytes.size();
+        c.budget_bytes = (x->model.size() + 1) * (2 + std::min<size_t>(from.bytes.size(), 16)) + (x->model.size() + 1) * to.bytes.size() + 4 * (from.bytes.size() + to.bytes.size());
         as_const(x); if (from.pool) as_const(from.pool); if (to.pool) as_const(to.pool);
         if (self) probe(c, PR_SELF_REFERENTIAL);
         if (!ci && (from.bytes.empty() || x->model.find(from.bytes) == std::string::npos)) probe(c, PR_RESULT_EQUALS_SOURCE);
@@ -443,7 +458,7 @@ bool exec_str_b(Ctx &c, const Op &op) {
         size_t maxs = resolve_code(op.c, 3);
         bool pieces_may_throw = ov == 1 && !(strict_utf8(x->model.data(), x->model.size()) && strict_utf8(n.bytes.data(), n.bytes.size()));
         note_sig(c, op, std::string("obj=") + cl(x) + ",ov=" + std::to_string(ov) + (n.pool == x ? ",self" : "") + (corrupt ? ",corrupted" : ""));
-        c.budget_bytes = (x->model.size() + 1) * (40 + std::min<size_t>(n.bytes.size(), 16));
+        c.budget_bytes = (x->model.size() + 1) * (40 + std::min<size_t>(n.bytes.size(), 16)) + 4 * n.bytes.size();
         as_const(x); if (n.pool) as_const(n.pool);
         if (n.pool == x) probe(c, PR_SELF_REFERENTIAL);
         if (op.fault & F_ALLOC) probe(c, PR_FAULT_VECTOR_GROWTH);
@@ -648,6 +663,41 @@ bool exec_str_b(Ctx &c, const Op &op) {
         });
         if (ex != EX_NONE && ex != EX_BAD_ALLOC) { if (x->model.size() >= 16) probe(c, PR_THROW_WITH_HEAP_TARGET); }
         if (settle(c, op, ex, allowed)) new_str_result(c, mem, x); else obj_free(mem);
+        return true;
+    }
+    case S_STFMT: {
+        // a formatter object obtained from "..."_stfmt is kept and called repeatedly; after a call that threw it must
+        // still behave like a fresh ST::format with the same format string
+        StrObj *x = pick(v, op.a), *y = pick(v, op.b);
+        if (!x) { c.skipped = true; return true; }
+        unsigned slot = op.c % 4; const char *fmt = SLOT_FORMATS[slot];
+        bool missing = (op.fault & F_CORRUPT) != 0;          // call with too few arguments: throws after producing some output
+        bool wf = strict_utf8(x->model.data(), x->model.size()) && strict_utf8(y->model.data(), y->model.size());
+        bool ascii = true; for (unsigned char ch : x->model) if (ch >= 0x80) ascii = false; for (unsigned char ch : y->model) if (ch >= 0x80) ascii = false;
+        note_sig(c, op, std::string("slot=") + std::to_string(slot) + ",a1=" + cl(x) + ",a2=" + cl(y) + (missing ? ",missing_arg" : "") + (wf ? "" : ",invalid"));
+        c.budget_bytes = (x->model.size() + y->model.size()) * 8 + 64;
+        as_const(x); as_const(y);
+        if (!c.fmt_slots[slot]) {
+            void *fm = obj_alloc(sizeof(StoredFmt));
+            run_quiet([&] { using namespace ST::literals; simrt::SutScope s; new (fm) StoredFmt(operator"" _stfmt(fmt, std::strlen(fmt))); });
+            c.fmt_slots[slot] = fm;
+        }
+        StoredFmt &F = *static_cast<StoredFmt *>(c.fmt_slots[slot]);
+        // reference: a fresh ST::format call with the same arguments (harness side, not subject to the fault plan)
+        std::string want; bool want_ok = false;
+        if (!missing) run_quiet([&] { simrt::SutScope s; try { S r = ST::format(fmt, *x->p(), *y->p()); want.assign(r.c_str(), r.size()); want_ok = true; } catch (...) { } });
+        unsigned allowed = 0;
+        if (missing) allowed |= bit(EX_OUT_OF_RANGE);
+        if (!wf || (slot == 3 && !ascii)) allowed |= bit(EX_UNICODE);
+        void *mem = obj_alloc(sizeof(S));
+        ExcKind ex = run_sut(c, op, [&] { if (missing) new (mem) S(F(*x->p())); else new (mem) S(F(*x->p(), *y->p())); });
+        if (settle(c, op, ex, allowed)) {
+            StrObj *o = new_str_result(c, mem, x);
+            if (!missing && want_ok) { o->st = M_DEFINITE; o->model = want; }
+        } else {
+            obj_free(mem);
+            if (!missing && want_ok && ex != EX_BAD_ALLOC) set_viol(c, "state_changed_after_throw", "a stored _stfmt formatter threw for arguments a fresh ST::format call accepts (it was left in a bad state by an earlier failed call)");
+        }
         return true;
     }
     case S_CODEC: {
